@@ -10,12 +10,12 @@ import (
 )
 
 type fifoState struct {
-	path         string
-	writerOpened bool
-	writerClosed bool
-	chunks       [][]value
-	isFifo       bool
-	readers      int
+	path        string
+	writers     int // writers that currently have the fifo open
+	writerOpens int // writer opens so far (a blocked reader open completes when one happens)
+	chunks      [][]value
+	isFifo      bool
+	readers     int // readers that have the fifo open or are blocked opening it
 }
 
 type fileState struct {
@@ -23,6 +23,8 @@ type fileState struct {
 	closed bool
 	path   string
 }
+
+type fifoWriterState struct{ closed bool }
 
 func (p *pathCtx) fifoByPath(path string) *fifoState {
 	if p.fifos == nil {
@@ -76,8 +78,10 @@ func init() {
 		}
 		// opening for writing blocks until a reader has the fifo open (or is opening it)
 		p.waitUntil("fifo-open-writer", func() bool { return f.readers > 0 })
-		f.writerOpened = true
-		var cell value = structure{args[0], (*value)(nil)}
+		f.writers++
+		f.writerOpens++
+		var ws value = &opaque{kind: "fifowriter", data: map[string]value{"state": &fifoWriterState{}}}
+		var cell value = structure{args[0], &ws}
 		return &cell
 	}
 	st["(*"+V+"FifoWriter).Write"] = func(fr *frame, args []value) value {
@@ -104,10 +108,19 @@ func init() {
 		w := (*args[0].(*value)).(structure)
 		f := p.fifoByPath(w[0].(string))
 		p.yieldPoint()
-		f.writerClosed = true
+		closed := false
+		if wp, ok := w[1].(*value); ok && wp != nil {
+			ws := (*wp).(*opaque).data["state"].(*fifoWriterState)
+			closed = ws.closed
+			ws.closed = true
+		}
+		if !closed {
+			f.writers--
+		}
 		return nil
 	}
 	st[V+"KeepOpen"] = func(fr *frame, args []value) value { return nil }
+	st[V+"Yield"] = func(fr *frame, args []value) value { fr.i.p.yieldPoint(); return nil }
 	st[V+"Quiesce"] = func(fr *frame, args []value) value {
 		p := fr.i.p
 		me := p.cur
@@ -135,8 +148,10 @@ func init() {
 		if f == nil {
 			return tuple{(*value)(nil), fr.i.mkError("open " + path + ": no such file or directory")}
 		}
+		// opening for reading blocks until a writer has the fifo open
 		f.readers++
-		p.waitUntil("open-fifo", func() bool { return f.writerOpened })
+		gen := f.writerOpens
+		p.waitUntil("open-fifo", func() bool { return f.writers > 0 || f.writerOpens > gen })
 		var cell value = &opaque{kind: "file", data: map[string]value{"state": &fileState{fifo: f, path: path}}}
 		return tuple{&cell, nilError()}
 	}
@@ -156,6 +171,9 @@ func init() {
 			return fr.i.mkError("close: file already closed")
 		}
 		fs.closed = true
+		if fs.fifo != nil {
+			fs.fifo.readers--
+		}
 		return nilError()
 	}
 	st["(*os.File).Read"] = func(fr *frame, args []value) value {
@@ -163,7 +181,7 @@ func init() {
 		fs := fileOf(p, args[0])
 		buf := args[1].([]value)
 		f := fs.fifo
-		p.waitUntil("read-fifo", func() bool { return fs.closed || len(f.chunks) > 0 || f.writerClosed })
+		p.waitUntil("read-fifo", func() bool { return fs.closed || len(f.chunks) > 0 || f.writers == 0 })
 		if fs.closed {
 			return tuple{0, fr.i.mkError("read " + fs.path + ": file already closed")}
 		}
